@@ -3,7 +3,6 @@ package c10
 import (
 	"fmt"
 	"math"
-	"os"
 	"sort"
 	"strconv"
 	"strings"
@@ -309,9 +308,6 @@ func evalPerRow(zctx *zed.Context, rows []zed.Value, e string) ([]zed.Value, err
 		return nil, err
 	}
 	if len(out) != len(rows) {
-		if os.Getenv("C10_DEBUG") != "" {
-			fmt.Fprintf(os.Stderr, "DEBUG yield %s: %d rows -> %d outputs; rows=%v\n", e, len(rows), len(out), showVals(rows))
-		}
 		return nil, nil
 	}
 	if out == nil {
